@@ -18,7 +18,7 @@ BUILD = os.path.join(VERIF, 'build', 'gen', _TAG) if _TAG else os.path.join(VERI
 REPLAYS = os.path.join(VERIF, 'replays', _TAG) if _TAG else os.path.join(VERIF, 'replays')
 EVIDENCE = os.path.join(VERIF, 'build', 'evidence-' + _TAG) if _TAG else os.path.join(VERIF, 'evidence')
 
-TIER_DEFAULTS = {'quick': {'timeout': 75, 'path_timeout': 20}, 'thorough': {'timeout': 400, 'path_timeout': 60}}
+TIER_DEFAULTS = {'quick': {'timeout': 75, 'path_timeout': 20}, 'thorough': {'timeout': 240, 'path_timeout': 60}}
 NCPU = int(os.environ.get('VKIT_JOBS', '0') or 0) or (os.cpu_count() or 4)
 
 
